@@ -96,16 +96,108 @@ func (g *Gen) Scenario() {
 	t1, t2 := &handleRef{-1}, &handleRef{-1}
 	fi := -1
 	n1, n2 := 1+g.R.Intn(3), 1+g.R.Intn(3)
-	nsc := 8
+	avail := []int{0, 1, 2, 3, 4, 5, 6, 7, 12, 12, 13, 13, -1, -1}
 	if withObs {
-		nsc = 12
+		avail = append(avail, 8, 9, 10, 11)
 	}
-	pick := g.R.Intn(nsc + 2)
-	if pick >= nsc {
+	pick := avail[g.R.Intn(len(avail))]
+	if pick < 0 {
 		g.scenarioReuse()
 		return
 	}
 	switch pick {
+	case 13: // a stale handle of a recycled ID used as relation target while the new incarnation has a table
+		c1, c2 := &handleRef{-1}, &handleRef{-1}
+		q = append(q, g.mkNew(t1, nil, nil), g.mkNew(c1, []int{r1}, g.relTo(r1, t1)))
+		q = append(q, func() []int64 {
+			if !g.valid(t1) {
+				return nil
+			}
+			return []int64{11, int64(t1.idx)}
+		})
+		q = append(q, g.mkNew(t2, nil, nil)) // recycles the ID of t1
+		q = append(q, g.mkNew(c2, []int{r1}, g.relTo(r1, t2)))
+		stale := func() [][2]int64 { return [][2]int64{{int64(r1), int64(t1.idx)}} }
+		q = append(q, func() []int64 { // create with the stale target: must panic
+			if !g.valid(t1) {
+				return nil
+			}
+			return cat([]int64{2}, encList([]int{r1}), encPairs(stale()))
+		})
+		q = append(q, func() []int64 { // assign the stale target: must panic
+			if !g.valid(t1) || !g.valid(c1) {
+				return nil
+			}
+			return cat([]int64{10, int64(c1.idx)}, encPairs(stale()))
+		})
+		q = append(q, func() []int64 { // add the relation component with the stale target to a plain entity
+			if !g.valid(t1) || !g.valid(t2) {
+				return nil
+			}
+			return cat([]int64{6, int64(t2.idx)}, encList([]int{r1}), encPairs(stale()))
+		})
+		q = append(q, func() []int64 {
+			if !g.valid(c2) {
+				return nil
+			}
+			return []int64{35, int64(c2.idx), int64(r1)}
+		})
+	case 12: // one filter: a batch with a per-call target, then two simultaneously open queries with different per-query targets
+		t3 := &handleRef{-1}
+		q = append(q, g.mkNew(t1, nil, nil), g.mkNew(t2, nil, nil), g.mkNew(t3, nil, nil))
+		for i := 0; i < n1; i++ {
+			q = append(q, g.mkNew(&handleRef{-1}, []int{r1}, g.relTo(r1, t1)))
+		}
+		for i := 0; i < n2+1; i++ {
+			q = append(q, g.mkNew(&handleRef{-1}, []int{a, r1}, g.relTo(r1, t2)))
+		}
+		q = append(q, g.mkNew(&handleRef{-1}, []int{r1}, g.relTo(r1, t3)))
+		q = append(q, g.mkFilter(&fi, []int{r1}, nil))
+		if g.R.Chance(30) {
+			q = append(q, func() []int64 {
+				if fi < 0 || fi >= len(g.S.Filters) {
+					return nil
+				}
+				g.registered[fi] = true
+				return []int64{16, int64(fi)}
+			})
+		}
+		q = append(q, func() []int64 {
+			if fi < 0 || fi >= len(g.S.Filters) || !g.valid(t3) {
+				return nil
+			}
+			return cat([]int64{12, int64(fi)}, encPairs([][2]int64{{int64(r1), int64(t3.idx)}}), []int64{g.fnFlag(false)})
+		})
+		qa, qb := -1, -1
+		open := func(qv *int, t *handleRef) lazyOp {
+			return func() []int64 {
+				if fi < 0 || fi >= len(g.S.Filters) || !g.valid(t) || len(g.openQueries) >= 5 {
+					return nil
+				}
+				*qv = len(g.S.Queries)
+				g.openQueries[*qv] = true
+				return cat([]int64{19, int64(fi)}, encPairs([][2]int64{{int64(r1), int64(t.idx)}}))
+			}
+		}
+		qop := func(qv *int, code int64, extra ...int64) lazyOp {
+			return func() []int64 {
+				if *qv < 0 || *qv >= len(g.S.Queries) {
+					return nil
+				}
+				if code == 21 {
+					delete(g.openQueries, *qv)
+				}
+				return append([]int64{code, int64(*qv)}, extra...)
+			}
+		}
+		q = append(q, open(&qa, t1), open(&qb, t2), qop(&qa, 22), qop(&qb, 22), qop(&qa, 23, 0), qop(&qb, 23, 0))
+		for i := 0; i < n1+1; i++ {
+			q = append(q, qop(&qa, 20))
+			if i == 0 {
+				q = append(q, qop(&qa, 24), qop(&qb, 20), qop(&qb, 24))
+			}
+		}
+		q = append(q, qop(&qb, 21), qop(&qa, 21))
 	case 7: // a filter / query naming a relation target that died and whose ID was recycled
 		c1 := &handleRef{-1}
 		fu := -1
